@@ -35,20 +35,23 @@ SPEC = os.path.join(VERIF, 'specs', 'TrustFiles')
 
 DEF = dict(Mode='"pat"', Emit='FALSE', MaxPat=2, MaxSubj=2, MaxItems=1,
            Upper='FALSE', MaxLines=1, HFSel=[1], MarkSel=[1], KeySel=[1],
+           QSel=list(range(1, 13)),
            MaxTok=2, MaxEntries=1, MaxOpts=1, OptSel=[1], SampleMod=1,
-           SampleRem=0, NegIgnored='FALSE', FallbackAlways='FALSE',
+           SampleRem=0, NegIgnored='FALSE', NoHostLiteralCidr='FALSE', FallbackAlways='FALSE',
            AnyFromSuffices='FALSE', DropPortRevoked='FALSE',
            CaseFold='FALSE')
 
 # many small single-worker JVMs run side by side: keep each one narrow
 JVM_ENV = {'JDK_JAVA_OPTIONS': '-XX:ParallelGCThreads=2 -XX:CICompilerCount=2'}
 
-ALL_HF = list(range(1, 21))
+ALL_HF = list(range(1, 29))
 ALL_OPT = list(range(1, 19))
+ALL_Q = list(range(1, 34))
 
 INVS = {
     'pat': ['WildIsRef', 'NegationExcludes', 'PositiveNeeded'],
     'kh': ['NegationExcludes', 'DamagedLineIsLocal', 'FallbackRule',
+           'LiteralHostIsAddress',
            'RevocationKept', 'MarkerPartition', 'OrderFree'],
     'tok': ['TokPlain', 'TokQuotes'],
     'ak': ['NegationExcludes', 'AllMustMatch', 'FirstEntryWins'],
@@ -108,6 +111,15 @@ def plan(ctx):
                                MarkSel=[1, 2, 3], KeySel=[1, 2])),
         ('kh2addr', 'kh', dict(MaxLines=2, HFSel=[10, 11, 12, 13, 14, 15, 17, 19, 20],
                                MarkSel=[1, 3], KeySel=[1, 3])),
+        # the lookup triple as a dimension: host a name / IPv4 / IPv6 literal
+        # / bracketed, peer address none / same / other / other family,
+        # default / other port x exact, wildcard, negated, CIDR v4 / v6,
+        # hashed, [host]:port lines, plain / @cert-authority / @revoked
+        ('kh1q', 'kh', dict(MaxLines=1, HFSel=ALL_HF, MarkSel=[1, 2, 3],
+                            KeySel=[1, 2, 3], QSel=ALL_Q)),
+        ('kh2q', 'kh', dict(MaxLines=2, MarkSel=[1, 3], KeySel=[1], QSel=ALL_Q,
+                            HFSel=[4, 10, 11, 13, 14, 17, 21, 22, 23, 24, 25,
+                                   26, 27, 28], **smp(2 if q else 1))),
         ('patU', 'pat', dict(MaxPat=2, MaxSubj=2, MaxItems=1, Upper='TRUE')),
         ('kh3', 'kh', dict(MaxLines=3, HFSel=[1, 4, 6, 8], MarkSel=[1, 3],
                            KeySel=[1, 3], **smp(12 if q else 1))),
@@ -137,6 +149,10 @@ SENSITIVITY = [
      'NegationExcludes'),
     ('neg_ak', 'ak', dict(MaxEntries=1, MaxOpts=1, OptSel=ALL_OPT,
                           NegIgnored='TRUE'), 'NegationExcludes'),
+    ('hostliteral', 'kh', dict(MaxLines=1, HFSel=[11, 14, 22, 26],
+                               MarkSel=[1, 3], QSel=ALL_Q,
+                               NoHostLiteralCidr='TRUE'),
+     'LiteralHostIsAddress'),
     ('fallback', 'kh', dict(MaxLines=2, HFSel=[1, 8], FallbackAlways='TRUE'),
      'FallbackRule'),
     ('droprev', 'kh', dict(MaxLines=2, HFSel=[1, 8], MarkSel=[1, 3],
@@ -174,6 +190,8 @@ class Replayer:
     def vetoed_by_ssh_keygen(self, text, file, qi, one):
         """True if ssh-keygen contradicts the specification on this case."""
         host, addr, port = self.menu.query(qi)
+        if self.menu.host_kind(qi) != 'n':
+            return False        # ssh-keygen has no CIDR / literal handling
         if addr or any(self.menu.keys[k - 1] == 'D' for _, _, k in file):
             return False
         name = f'[{host}]:{port}' if port else host
@@ -274,7 +292,8 @@ class Replayer:
             self.ctx.divergence(f'kh: same key sets but different '
                                 f'order/multiplicity: {desc} {q}: '
                                 f'{got} vs {[host, ca, rev]}')
-        elif not has_d and not q[1] and self.n % 7 == 0:
+        elif not has_d and not q[1] and self.n % 7 == 0 and \
+                menu.host_kind(qi) == 'n':
             name = f'[{q[0]}]:{q[2]}' if q[2] else q[0]
             self.second.append((text, name, one, f'{desc} ? {name}'))
 
